@@ -178,6 +178,15 @@ def run(tier, only=None):
         R.case(["misc", r["k"]], True, section="off_and_onset")
         for sig, p in r["bad"]:
             R.violation(sig, {"k": r["k"], "pt": r["pt"], "detail": p})
+    # the estimates inside the assembled points read the surface's own quantities (OASWiring.ReadsOwnOutput on real models)
+    from .. import wiring
+
+    am = B.AeroModel([dict(name="wing", nx=2, ny=3, sym=True, side="L", shape="swept", visc=True, wave=True, CL0=0.1)], rng=np.random.default_rng(2))
+    am.prob.final_setup()
+    wiring.check(R, am.prob, "aero", "aero:viscous+wave")
+    sm = B.ASModel([dict(name="wing", nx=2, ny=3, sym=True, side="L", shape="swept", visc=True, wave=True, fem="wingbox", span=20.0, chord=3.0)], rng=np.random.default_rng(2))
+    sm.prob.final_setup()
+    wiring.check(R, sm.prob, "AS_point_0", "aerostruct:viscous+wave")
     R.assume("relative dead band %g for 'same'" % DEADBAND, "lattice values: " + json.dumps(VALUES), "chord Reynolds numbers > 1e3 throughout; constant-chord untwisted (sheared-swept) wing for the nx/ny refinement clause")
     return R.finish({"chains": len(chains), "steps": len(steps), "sign_histogram": {"%s:%d:%d" % k: v for k, v in sorted(seen.items())}})
 
